@@ -79,6 +79,9 @@ TERMINATING = {"B", "BR", "CBZ", "CBNZ", "TBZ", "TBNZ", "RET"} | {"B_" + k for k
 HAZARD_OK = {
     ("BL", "bl"): "BL's only operand is a PC-relative label (an immediate); the register alternatives of operand_load are not "
                   "produced by the decoder for BL, so the branch target never reads a register (BLR has its own handler)",
+    ("LDP", "operand_store"): "the second destination's lane merge reads Rt2 after Rt was written; LDP with Rt == Rt2 is CONSTRAINED UNPREDICTABLE",
+    ("LDNP", "operand_store"): "as LDP: Rt == Rt2 is CONSTRAINED UNPREDICTABLE",
+    ("LDPSW", "operand_store"): "as LDP: Rt == Rt2 is CONSTRAINED UNPREDICTABLE",
     ("*", "apply"): "base-register write-back is emitted after the transfer registers are written; LDR/LDP with write-back and "
              "Rn == Rt (or Rt2) is CONSTRAINED UNPREDICTABLE (Arm ARM C6.2.13x), so the forms where this read sees a new "
              "value are not architecturally defined",
